@@ -109,9 +109,9 @@ CLAIMS = {
     },
     "C06": {
         "engine": "E2-mirsym",
-        "text": "The whole loader is executed by the symbolic executor on one document per fault kind (13 kinds, two layouts), once strict and once non-strict: strict Ok implies non-strict Ok with equal models; strict fails exactly when non-strict reports a problem that is not a deprecation notice (or fails too); every diagnostic carries the line of the faulty token. The skipping routine is additionally run with a symbolic strictness flag.",
+        "text": "The whole loader is executed by the symbolic executor on one document per fault kind (18 kinds, two layouts) and on one generated document per block element of the grammar whose end tag is wrong (thorough: every generated document with one recoverable problem), once strict and once non-strict: strict Ok implies non-strict Ok with equal models; strict fails exactly when non-strict reports a problem that is not a deprecation notice (or fails too); every diagnostic carries the line of the faulty token. The skipping routine is additionally run with a symbolic strictness flag.",
         "design_ref": "DESIGN.md section 4 C06",
-        "note": "Fault kinds are enumerated by forking (bounded shape); only the call sites reached by the template are covered. Trusted: E2 std models. Outside: IF_DATA interplay, the error_or_log sites of element parsers not in the template.",
+        "note": "Fault kinds are enumerated by forking (bounded shape); only the call sites reached by the template are covered. Trusted: E2 std models. Outside: IF_DATA interplay, combinations of several problems in one document.",
         "technique": "bounded symbolic execution of MIR (fork per fault kind, symbolic strictness in the helper harnesses), native replay",
     },
     "C19": {
